@@ -99,6 +99,9 @@ func runC10(em *vEmitter, r *vRng) {
 			Human: map[string]interface{}{"update": cap(st.updateChan), "notify": cap(st.hooks.Notify)}})
 		ms.cleanup()
 	}
+	// a backlog of logins that takes the dispatcher many seconds to work off (expensive hashes): every
+	// one of them is answered, and the agent answers other requests afterwards
+	c10SlowBurst(em, r)
 	for _, p := range pats {
 		ms := mNewStore("c10", r, 2) // default = set 2, users planted under set 1 / 3: all upgradeable
 		nusers := 30
@@ -231,3 +234,91 @@ func runC10(em *vEmitter, r *vRng) {
 }
 
 var _ = http.StatusOK
+
+func c10SlowBurst(em *vEmitter, r *vRng) {
+	ms := mNewStore("c10slow", r, 1)
+	// one expensive parameter set (about 0.1 s per hash)
+	ms.params = []mParam{{ID: 1, Time: 1, Memory: 8, Threads: 1, Length: 32}, {ID: 2, Scrypt: true, Key: r.bytes(32), Cost: 15}}
+	ms.writeCfg()
+	nusers := 6
+	t0 := time.Now()
+	for i := 0; i < nusers; i++ {
+		ms.plant(fmt.Sprintf("slow%d", i), i == 0, 2, 1600000000, r.bytes(32), []byte(fmt.Sprintf("pw%d", i)), "")
+	}
+	perHash := time.Since(t0) / time.Duration(nusers)
+	st, err := NewStore(ms.cfgfile, "", "", "", "")
+	if err != nil {
+		panic(err)
+	}
+	api := st.GetInterface()
+	t0 = time.Now()
+	for i := 0; i < 3; i++ {
+		api.Authenticate("slow0", "pw0")
+	}
+	perHash = time.Since(t0) / 3
+	want := 14 * time.Second
+	if vThorough() {
+		want = 40 * time.Second
+	}
+	n := int(want / (perHash + 1))
+	if n < 20 {
+		n = 20
+	}
+	if n > 2000 {
+		n = 2000
+	}
+	var answered, correct int64
+	var wg sync.WaitGroup
+	start := time.Now()
+	for i := 0; i < n; i++ {
+		wg.Add(1)
+		go func(i int) {
+			defer wg.Done()
+			u := i % nusers
+			ok, _, _, err := api.Authenticate(fmt.Sprintf("slow%d", u), fmt.Sprintf("pw%d", u))
+			atomic.AddInt64(&answered, 1)
+			if ok && err == nil {
+				atomic.AddInt64(&correct, 1)
+			}
+		}(i)
+	}
+	done := make(chan struct{})
+	go func() { wg.Wait(); close(done) }()
+	viol := ""
+	select {
+	case <-done:
+	case <-time.After(want*3 + 30*time.Second):
+		viol = fmt.Sprintf("%d of %d logins of a burst were never answered", int64(n)-atomic.LoadInt64(&answered), n)
+	}
+	burstTook := time.Since(start)
+	if viol == "" && atomic.LoadInt64(&correct) != int64(n) {
+		viol = fmt.Sprintf("%d of %d valid logins of a burst (backlog of %v) were answered with a refusal or an error", int64(n)-atomic.LoadInt64(&correct), n, burstTook.Round(time.Second))
+	}
+	// the agent still answers every kind of request
+	if viol == "" {
+		kinds := map[string]func(){
+			"list": func() { api.List() }, "check": func() { api.Check() }, "add": func() { api.Add("after", "pw", false) },
+			"update": func() { api.Update("slow1", "pw1") }, "set-admin": func() { api.SetAdmin("slow1", true) },
+			"remove": func() { api.Remove("after") }, "authenticate": func() { api.Authenticate("slow0", "pw0") }}
+		for k, f := range kinds {
+			ch := make(chan struct{})
+			go func() { f(); close(ch) }()
+			select {
+			case <-ch:
+			case <-time.After(20 * time.Second):
+				viol = fmt.Sprintf("after a login burst with a backlog of %v the agent no longer answers: %s not answered within 20 s", burstTook.Round(time.Second), k)
+			}
+			if viol != "" {
+				break
+			}
+		}
+	}
+	c := vCase{Prop: "C10", Kind: "load", Class: "load/slow-hash-burst", Nontrivial: true,
+		Human: map[string]interface{}{"logins": n, "per_hash_ms": perHash.Milliseconds(), "burst_s": burstTook.Seconds(), "answered": atomic.LoadInt64(&answered), "correct": atomic.LoadInt64(&correct)}}
+	if viol != "" {
+		c.Violation = viol
+	} else {
+		ms.cleanup()
+	}
+	em.emit(c)
+}
